@@ -7,7 +7,7 @@ IDS = ["C%02d" % i for i in range(1, 21)]
 TECH_SUM = "MIR value-flow summary (rustc_private facts, path-partitioned dataflow with std axioms) compared with a reference decision table; co-occurrence by Fourier-Motzkin entailment"
 
 CLAIMS = {
- "C01": ("other", "Structural necessary conditions of the v1 grammar decided from the MIR summaries of both entry points and their common field parser: constants, window/limit terms, single tokeniser on {SP,CR}, keyword and field provenance of every accepting outcome, leading-zero and sign guards dominating Ok, CRLF suffix dominating Ok, TCP4/TCP6 sibling symmetry.", "5/C01",
+ "C01": ("other", "Structural necessary conditions of the v1 grammar decided from the MIR summaries of both entry points and their common field parser: constants, window/limit terms, single tokeniser on {SP,CR}, keyword and field provenance of every accepting outcome, leading-zero and sign guards dominating Ok, CRLF suffix dominating Ok, TCP4/TCP6 sibling symmetry; acceptance compared with the spec's acceptance condition at the level of token predicates in both directions (no over-rejection of canonical lines, every accepting outcome entails each conjunct).", "5/C01",
          "NOT decided: acceptance <=> grammar for arbitrary strings (token contents; defects D6/D7 of DESIGN.md are invisible). Trusted: std axioms incl. the token-layout axiom of str::splitn and the stated leniencies of u16/Ipv4Addr/Ipv6Addr::from_str.", "MIR value-flow summaries with a token model (tok(split(text), k)); dominance of guards over accepting outcomes decided by conflict with the path condition"),
  "C08": ("other", "Display templates decoded from rustc's format_args encoding and compared piecewise with the canonical line per kind; argument order tied to the parser's token-to-field provenance; length bound by arithmetic over maximal widths; Header display echoes the stored window; FromStr delegation.", "5/C08",
          "NOT decided: the round trip itself (std Display/FromStr inverse is an axiom; parser acceptance of every canonical line is the undecided part of C01).", "format template decoding + MIR value-flow summaries compared with reference; formatter/parser cross-check"),
